@@ -50,6 +50,38 @@ def _receiver_is_child(call):
     return any(mk in r for mk in CHILD_EXPR_MARKERS)
 
 
+def _bounded_by_guard(f, call):
+    """x.m(...) inside the branch `if/elif self.P():` of m is bounded (depth 1) when the statement
+    just before it in the same block is `while x.P(): x = ...`: on loop exit x.P() is false, so the
+    callee cannot take the branch that contains the self-call."""
+    if not (isinstance(call.func, ast.Attribute) and isinstance(call.func.value, ast.Name)):
+        return False
+    x = call.func.value.id
+    par = parents(f)
+    # statement containing the call and its block
+    st = call
+    while st in par and not isinstance(st, ast.stmt):
+        st = par[st]
+    blk_owner = par.get(st)
+    guard = None
+    block = None
+    if isinstance(blk_owner, ast.If) and st in blk_owner.body:
+        guard = blk_owner.test
+        block = blk_owner.body
+    if guard is None or not (isinstance(guard, ast.Call) and isinstance(guard.func, ast.Attribute)
+                             and norm(guard.func.value) == "self" and not guard.args):
+        return False
+    pred = guard.func.attr
+    i = block.index(st)
+    if i == 0 or not isinstance(block[i - 1], ast.While):
+        return False
+    w = block[i - 1]
+    if norm(w.test) != "%s.%s()" % (x, pred):
+        return False
+    # the loop only reassigns x from x's own children (progress), nothing else touches x after it
+    return all(isinstance(b, ast.Assign) and norm(b.targets[0]) == x for b in w.body)
+
+
 def run(ctx):
     repo, ht = get_repo(), get_tables()
     ctx.analysed["modules"] = ["pysmt/fnode.py", "pysmt/formula.py", "pysmt/walkers/*.py", "pysmt/type_checker.py",
@@ -95,6 +127,7 @@ def run(ctx):
                                     any(mk in norm(n.iter) for mk in CHILD_EXPR_MARKERS):
                                 hits.append((c, "child-alias"))
                                 break
+                hits = [(c, k) for c, k in hits if not _bounded_by_guard(f, c)]
                 if not hits:
                     rs.ok({"function": "%s.%s" % (q.split(".")[-1], nm), "self_recursion": False})
                     continue
